@@ -23,6 +23,12 @@ def run(tier, seed):
             D("dss", 5, 1, [0, 0, 5, 0, 0], 4), D("dss", 5, 2, [0, 5, 0, 0, 0], 5), D("dss", 3, 1, [0, 0, 5], 6),
             D("nts", 4, 1, [0, 5, 0, 0], 7), D("nts", 4, 1, [0, 0, 0, 5], 8), D("nts", 5, 2, [5, 0, 0, 0, 0], 9),
             D("nts", 5, 1, [0, 0, 0, 5, 0], 10), D("nts", 3, 1, [0, 5, 0], 11)]
+    # a signer that took part in the key generation honestly and is gone when the signing starts (its contribution has to be
+    # reconstructed from the others' shares): odd and even thresholds
+    dirs += [D("nts", 4, 1, [0, 0, 0, 7], 31), D("nts", 4, 1, [0, 7, 0, 0], 32), D("dss", 4, 1, [0, 0, 7, 0], 33),
+             D("nts", 5, 1, [7, 0, 0, 0, 0], 34), D("nts", 7, 3, [0, 0, 7, 0, 0, 0, 0], 35), D("nts", 7, 2, [0, 0, 0, 0, 7, 0, 0], 36)]
+    if not q:
+        dirs += [D(p, n, t, [7 if k == w else 0 for k in range(n)], 60 + 7 * n + w) for p in ("dss", "nts") for n, t in ((5, 2), (6, 2), (7, 3)) for w in range(0, n, 2)]
     if not q:
         dirs += [D(p, n, t, [5 if k == w else 0 for k in range(n)], 20 + 7 * n + w) for p in ("dss", "nts") for n, t in ((6, 2), (7, 3), (7, 2)) for w in range(n)]
     dkg_common.run_directed(ck, PID, dirs)
